@@ -4,7 +4,9 @@ import (
 	"bytes"
 	"encoding/json"
 	"fmt"
+	"sort"
 	"strings"
+	"sync"
 	"sync/atomic"
 
 	ike "github.com/free5gc/ike"
@@ -1193,6 +1195,60 @@ func c04(c *core.Ctx) {
 	if v := variant(); v != "plain" {
 		c.Count("sanitizer_build_"+v, 1)
 	}
+	// FIRST in every process of this check: hostile EAP-AKA' / payload-type inputs whose refusal names a type code, decoded by
+	// 8 goroutines at once into their own objects - the first time each code is met in this process happens while other
+	// decoders run (the race build watches; every build compares the outcomes)
+	c.Family("first-hostile-decodes-overlap", 32, func(k *core.Case) {
+		var wg sync.WaitGroup
+		outs := make([]string, 8)
+		for g := 0; g < 8; g++ {
+			wg.Add(1)
+			go func(g int) {
+				defer wg.Done()
+				defer func() {
+					if x := recover(); x != nil {
+						outs[g] = fmt.Sprint("PANIC ", x)
+					}
+				}()
+				var sb strings.Builder
+				for j := 0; j < 8; j++ {
+					at := byte(k.Index*8 + (j+g)%8)
+					for _, pkt := range [][]byte{
+						{1, 7, 0, 12, 50, 1, 0, 0, at, 0, 0, 0},             // length octet 0
+						{1, 7, 0, 13, 50, 1, 0, 0, at, 2, 0, 0, 9},          // cut inside the value
+						{2, 7, 0, 9, 50, 1, 0, 0, at},                       // cut after the type
+						{1, 7, 0, 16, 50, 1, 0, 0, at, 2, 0, 0, 1, 2, 3, 4}, // well-formed
+					} {
+						err := new(eap.EAP).Unmarshal(append([]byte{}, pkt...))
+						fmt.Fprintf(&sb, "%v;", err != nil)
+					}
+					// a message whose only payload is a critical one of this type code, with a short body
+					dgm := append([]byte{1, 2, 3, 4, 5, 6, 7, 8, 0, 0, 0, 0, 0, 0, 0, 0, at, 0x20, 34, 8, 0, 0, 0, 1, 0, 0, 0, 34}, 0, 0x80, 0, 6, 1, 2)
+					err := new(message.IKEMessage).Decode(dgm)
+					fmt.Fprintf(&sb, "%v|", err != nil)
+				}
+				outs[g] = sb.String()
+			}(g)
+		}
+		wg.Wait()
+		k.Eval(8 * 8 * 5)
+		// every goroutine saw the same 8 codes (in rotated order): the multiset of outcomes per code is the same
+		for g := 0; g < 8; g++ {
+			if strings.HasPrefix(outs[g], "PANIC") {
+				k.Violate("panic", "overlapping-first-decodes: "+outs[g], "panic", M{"codes_from": k.Index * 8})
+				return
+			}
+			a, b := strings.Split(outs[0], "|"), strings.Split(outs[g], "|")
+			sort.Strings(a)
+			sort.Strings(b)
+			if strings.Join(a, "|") != strings.Join(b, "|") {
+				k.Violate("mismatch", "overlapping-first-decodes-disagree", "goroutine 0: "+outs[0]+" goroutine "+fmt.Sprint(g)+": "+outs[g], M{"codes_from": k.Index * 8})
+				return
+			}
+		}
+		k.Count("first_hostile_decodes_overlapping", 1)
+	})
+	c.Require("first_hostile_decodes_overlapping")
 	c04Windows(c)
 	c04ValidChecksum(c)
 	c04Mutations(c)
